@@ -49,7 +49,7 @@ def publisher_steps(env, vals, match_kind, pos, fillers, cps):
 
 def sched_cfg(tier):
     # (deviations, horizon)
-    return (1, 10) if tier == "quick" else (2, 12)
+    return (1, 10) if tier == "quick" else (1, 16)
 
 
 def sched_params(tier):
@@ -168,7 +168,7 @@ SCHED = Harness(
     "one of them matching (" + "; ".join(MATCH_KINDS) + ") at position 0-2, the others non-matching (" + "; ".join(FILLERS)
     + "), with/without checkpoints between; a second publisher with alias 'q/other' publishes T under its remapped default name and a third, plain-aliased one under 'default'; optionally an application-level listener with a 1-slot queue that subscribed first and never reads; "
     + ("FIFO schedule with ONE deviation: at any one of the first 10 decision points any other runnable task may be picked"
-       if tier == "quick" else "FIFO schedule with up to TWO deviations (each within 12 decisions of the previous one), any other runnable task"),
+       if tier == "quick" else "FIFO schedule with ONE deviation anywhere in the first 16 decision points, any other runnable task, and all parameter combinations"),
     oracle="startup completes (no TimeoutError/deadlock = no lost wake-up); each waiter returns only after the matching publication and with "
     "exactly the published object / the factory's product (factory called once); optional=True and get_resource outside startup return "
     "None / raise ResourceNotFound without consuming a single scheduler step",
